@@ -27,7 +27,7 @@ def _spec(module):
         return [{
             'units': {'cJSON.c': 'core_min.c', 'cJSON_Utils.c': 'utils_bad.c'},
             'rules': [tab.tab8, tab.tab9, tab.tab10, tab.tab11, tab.tab12, lst.lst1, out.out5, out.out6, out.out7,
-                      utilsx.tab18, utilsx.ord1],
+                      utilsx.tab18, utilsx.ord1, tab.tab20],
         }]
     if module == 'parse':
         from . import bnd, bnd3, parse, tab
@@ -51,14 +51,14 @@ def _spec(module):
         from . import own, parse
         return [{
             'units': {'cJSON.c': 'own_bad.c', 'cJSON_Utils.c': 'utils_min.c'},
-            'rules': [lambda units, R: own.own_engine(units, R), own.own5, own.own6, own.own7,
+            'rules': [lambda units, R: own.own_engine(units, R), own.own5, own.own6, own.own7, own.own8,
                       lambda units, R: own.own4_dangling(units, R, unit_names=('cJSON.c',)), parse.tab17],
         }]
     if module == 'tables':
         from . import parse
         return [{
             'units': {'cJSON.c': 'tables_bad.c', 'cJSON_Utils.c': 'utils_min.c'},
-            'rules': [parse.tab4, parse.tab5a, parse.tab6, parse.tab7, parse.c02_structure, parse.c03_structure],
+            'rules': [parse.tab4, parse.tab5a, parse.tab6, parse.tab7, parse.c02_structure, parse.c03_structure, parse.tab21],
         }]
     if module == 'print':
         from . import outbuf, outsym
